@@ -11,9 +11,12 @@ import (
 func init() {
 	f := "internal/loader/buildtag/expr.go"
 	register(&Property{ID: "C24", Run: runC24, Mutants: []Mutant{
+		{Name: "the expression parser recurses without a limit", File: "internal/loader/buildtag/expr.go", Old: "\tif p.size++; p.size > maxSize {\n\t\tpanic(&SyntaxError{Offset: p.pos, Err: \"build expression too large\"})\n\t}\n", New: "", Expect: "recursion-bounded"},
+		{Name: "the architecture tag ignores the configured target", File: "internal/loader/loader.go", Old: "\tif s := p.cfg.TargetArch; s != \"\" {\n\t\treturn s\n\t}\n\tif s := p.prog.Manifest.Pkg.TargetArch; s != \"\" {\n\t\treturn s\n\t}\n", New: "", Expect: "target-getters-read-config"},
+		{Name: "a negated negation is printed as !!a", File: "internal/loader/buildtag/expr.go", Old: "\tcase *AndExpr, *OrExpr, *NotExpr:", New: "\tcase *AndExpr, *OrExpr:", Expect: "print-reparses"},
 		{Name: "excluded files deleted in place without stepping the index back", File: "internal/loader/loader.go", Old: "\t\tvar pkgFileNames = make([]string, 0, len(filenames))\n\t\tvar pkgFiles = make([]*ast.File, 0, len(pkg.Files))\n\t\tfor i, f := range pkg.Files {\n\t\t\tskiped, err := p.isSkipedAstFile(f)\n\t\t\tif err != nil {\n\t\t\t\treturn nil, err\n\t\t\t}\n\t\t\tif skiped {\n\t\t\t\tcontinue\n\t\t\t}\n\t\t\tpkgFileNames = append(pkgFileNames, filenames[i])\n\t\t\tpkgFiles = append(pkgFiles, f)\n\t\t}\n\t\tfilenames = pkgFileNames\n\t\tpkg.Files = pkgFiles\n", New: "\t\tfor i := 0; i < len(pkg.Files); i++ {\n\t\t\tskiped, err := p.isSkipedAstFile(pkg.Files[i])\n\t\t\tif err != nil {\n\t\t\t\treturn nil, err\n\t\t\t}\n\t\t\tif skiped {\n\t\t\t\tfilenames = append(filenames[:i], filenames[i+1:]...)\n\t\t\t\tpkg.Files = append(pkg.Files[:i], pkg.Files[i+1:]...)\n\t\t\t}\n\t\t}\n", Expect: "filter-loop-visits-all"},
 		{Name: "not() collapses a negated negation to the inner negation", File: "internal/loader/buildtag/expr.go", Old: "func not(x Expr) Expr { return &NotExpr{x} }", New: "func not(x Expr) Expr {\n\tif x, ok := x.(*NotExpr); ok {\n\t\treturn x\n\t}\n\treturn &NotExpr{x}\n}", Expect: "constructor-total"},
-		{Name: "negation printed without parentheses around ||", File: f, Old: "\tcase *AndExpr, *OrExpr:\n\t\ts = \"(\" + s + \")\"", New: "\tcase *AndExpr:\n\t\ts = \"(\" + s + \")\"", Expect: "print-precedence :: NotExpr.String"},
+		{Name: "negation printed without parentheses around ||", File: f, Old: "\tcase *AndExpr, *OrExpr, *NotExpr:", New: "\tcase *AndExpr, *NotExpr:", Expect: "print-"},
 		{Name: "build line searched outside the doc comment only for undocumented files", File: "internal/loader/loader.go", Old: "\t}\n\tif buildExpr == nil {\n\t\tfor _, comment := range f.Comments {", New: "\t} else {\n\t\tfor _, comment := range f.Comments {", Expect: "build-line-search"},
 		{Name: "AndExpr evaluates as or", File: f, Old: "\treturn xok && yok", New: "\treturn xok || yok", Expect: "evaluator-truth-table :: AndExpr"},
 		{Name: "NotExpr loses the negation", File: f, Old: "\treturn !x.X.Eval(ok)", New: "\treturn x.X.Eval(ok)", Expect: "evaluator-truth-table :: NotExpr"},
@@ -76,7 +79,7 @@ func runC24(c *Ctx) {
 		"(2) the recursive-descent grammar is or -> and -> not -> atom, each level loops on its own operator token and builds its own node kind with operands in order; " +
 		"(3) a file is dropped from a non-main package exactly when Eval is false: isSkipedAstFile returns the negation of Eval and its caller drops the file iff skipped; the tag predicate accepts the target OS, the target architecture and every configured tag and nothing else; " +
 		"(4) a malformed constraint is returned as an error and aborts the import. " +
-		"NOT decided: lexing of tags, String()/Parse round trip, detection of which comment is the constraint line."
+		"(5) NotExpr.String parenthesises every operand kind the parser does not accept directly behind `!`. NOT decided: lexing of tags, the rest of the String()/Parse round trip, detection of which comment is the constraint line."
 	c.Trusted = []string{"go/packages, go/types (x/tools v0.29.0)"}
 	p := c.Load(LoadOpt{Light: true}, "./internal/loader", "./internal/loader/buildtag")
 	bt := p.MustPkg("evaluator-truth-table", "internal/loader/buildtag")
@@ -84,6 +87,9 @@ func runC24(c *Ctx) {
 	if bt == nil || ld == nil {
 		return
 	}
+	c24PrintReparses(c, p, bt)
+	c24TargetGetters(c, p, ld)
+	c24RecursionBounded(c, p, bt)
 	const rT, rG, rI, rP, rM = "evaluator-truth-table", "grammar-shape", "inclusion-polarity", "tag-predicate", "malformed-rejected"
 	c24Extra(c, p, bt, ld)
 	c24InPlaceDeletion(c, p, ld)
